@@ -79,6 +79,32 @@ Section Case.
   Qed.
 End Case.
 
+(** ** design against design (C12: hierarchical vs inlined compilation) *)
+Definition dhash (p : res vstate * res vstate) : positive :=
+  Pos.add (vhash (fst p)) (Pos.mul 7919 (vhash (snd p))).
+Definition no_assume_d : res vstate -> list value -> bool := fun _ _ => true.
+
+Definition dcheck (d1 d2 : design) (mid : bool) (alphabet : list (list value)) (fuel : nat) : verdict (I := list value) :=
+  check (vstep d1 mid) (vstep d2 mid) rvstate_eqb rvstate_eqb out_eqb dhash alphabet no_assume_d fuel
+        [(power_up d1, power_up d2)].
+Definition dcheck_bfs (d1 d2 : design) (mid : bool) (alphabet : list (list value)) (fuel : nat) : verdict (I := list value) :=
+  check_bfs (vstep d1 mid) (vstep d2 mid) rvstate_eqb rvstate_eqb out_eqb dhash alphabet no_assume_d fuel
+        [(power_up d1, power_up d2)].
+
+Lemma admissible_all_d (d2 : design) mid alphabet ins :
+  Forall (fun i => In i alphabet) ins -> forall s, admissible (vstep d2 mid) alphabet no_assume_d s ins.
+Proof. induction 1 as [|i r Hi _ IH]; intros s; cbn; auto. Qed.
+
+Theorem dcheck_sound d1 d2 mid alphabet fuel :
+  is_ok (dcheck d1 d2 mid alphabet fuel) = true ->
+  forall ins, Forall (fun i => In i alphabet) ins ->
+    traceA (vstep d1 mid) (power_up d1) ins = traceB (vstep d2 mid) (power_up d2) ins.
+Proof.
+  intros H ins Hin.
+  eapply (explore_sound_b (vstep d1 mid) (vstep d2 mid) rvstate_eqb rvstate_eqb out_eqb
+            rvstate_eqb_ok rvstate_eqb_ok out_eqb_ok); [exact H|left; reflexivity|apply admissible_all_d; exact Hin].
+Qed.
+
 (** all valuations of a list of input ports, given the candidate values of each *)
 Fixpoint product (cands : list (list value)) : list (list value) :=
   match cands with
